@@ -17,7 +17,7 @@
 EXTENDS RtFs, Json, IOUtils
 
 Log == ndJsonDeserialize(IOEnv.TRACE)
-VARIABLE l, kind       \* kind: "replay" | "fault"
+VARIABLE l, kind       \* kind: "replay" | "fault" | "fault09"
 tvars == <<vars, l, kind>>
 Rec == Log[l]
 Is(c) == l <= Len(Log) /\ Rec.c = c /\ l' = l + 1
@@ -61,16 +61,20 @@ TKilled ==
    /\ ObsC09a(Rec) /\ ObsC09b(Rec)
    /\ status' = "killed" /\ UNCHANGED <<sc, pc, obs, json, flushed, fault, copyfail, moveok, kind>>
 
+\* kind "fault09": an execution with an injected I/O error judged for C09 only ("a stream is marked
+\* finished only after all its flushed bytes are in their final place" also on the error paths)
 TReturned ==
    /\ Is("returned") /\ status = "running"
    /\ (kind = "replay" => (Cur.c = "return_free" /\ ObsState(Rec)))
-   /\ ObsC10a(Rec) /\ ObsC09a(Rec) /\ ObsC09b(Rec)
+   /\ (kind # "fault09" => ObsC10a(Rec)) /\ ObsC09a(Rec) /\ ObsC09b(Rec)
    /\ status' = "returned" /\ UNCHANGED <<sc, pc, obs, json, flushed, fault, copyfail, moveok, kind>>
 
 \* die(): abort with a diagnostic; nothing that was flushed may have been deleted
 TAborted ==
-   /\ Is("aborted") /\ status = "running" /\ kind = "fault"
-   /\ Rec.diag /\ ObsC10b(Rec) /\ ObsC09a(Rec)
+   /\ Is("aborted") /\ status = "running" /\ kind \in {"fault", "fault09"}
+   /\ (kind = "fault" => (Rec.diag /\ ObsC10b(Rec)))
+   /\ ObsC09a(Rec)
+   /\ (kind = "fault09" => ObsC09b(Rec))
    /\ status' = "aborted" /\ UNCHANGED <<sc, pc, obs, json, flushed, fault, copyfail, moveok, kind>>
 
 TNext == TScenario \/ TCall \/ TKilled \/ TReturned \/ TAborted
